@@ -18,7 +18,6 @@ TInit == /\ tid \in 1..NT /\ l = 1
 Ev == Traces[tid].ev[l]
 A  == Ev.a
 Step == A.n = "merge" /\ (Merge(A.t, A.o) \/ MergeRefused(A.t, A.o))
-\* at a refusal the recorder does not look at `other` (the statement speaks about the target): its entry is the pre-state one
 \* the outcome is compared as accepted / refused: which refusal class the code raises is logged (post.cls), not compared
 \* every observed value is an integer, a sequence of integers or the boolean `alive` (diagnostics of the projection are
 \* negative integers), so the comparison below never meets values of different types
